@@ -206,6 +206,13 @@ def run(P, chk, tier):
             for tb, labs in ds[2].items():
                 if True in labs:
                     errs = [bb for bb, v, rv in q.ok_err_assignments(h) if v == "Err"]
+                    # an Err built where a closure / helper of load_impl was written out: it leaves through `?`
+                    for i_ in sorted(h.live_blocks()):
+                        for st_ in h.blocks[i_]["stmts"]:
+                            if st_["k"] == "assign" and st_["rv"]["k"] == "aggregate" and st_["rv"].get("variant") == "Err" and \
+                                    norm(st_["rv"].get("adt") or "").endswith("result::Result") and st_["place"]["l"] != 0 and \
+                                    getattr(h, "inlined_callees", None):
+                                errs.append(i_)
                     reach = h.reach_from(tb, without_blocks=tuple(errs))
                     ok = bool(errs) and not any(h.term(x)["k"] == "return" for x in reach) and (h is not b or rbb not in reach)
         if h is b:
